@@ -24,11 +24,14 @@
     `C18_fresh_counterexample` (a parse read before a modification is stamped with the time
     of writing) and `C18_fresh_equal_mtime_counterexample` (a modification within the
     timestamp granule of the entry's last write; `≥` accepts equality).  The full statement is
-    kept as `C18_fresh_full`; `C18_fresh_partial` proves it under exactly the negation of the two
-    witness classes: `histNoModDuringStore` ("the source is not modified between the read that
-    produced a parse and the store of that parse") and `histFineClock` ("every modification gets a
-    timestamp later than everything written before it"), and with `InitF` (the initial entry is
-    not itself such a stale-but-fresh-looking parse).
+    kept as `C18_fresh_full`; `C18_fresh_older_mtime_counterexample`: a source REPLACED by a file
+    that carries an mtime older than the entry (`Ev.replace m`: installed with its build time
+    preserved) leaves the entry "fresh".  `C18_fresh_partial` proves the clause under exactly the
+    negation of the three witness classes: `histNoModDuringStore` ("the source is not modified
+    between the read that produced a parse and the store of that parse") and `histFineClock`
+    ("every modification is stamped with the time at which it happens and gets a timestamp later
+    than everything written before it" = `histTicks` + no `Ev.replace`), and with `InitF` (the
+    initial entry is not itself such a stale-but-fresh-looking parse).
   * `C18_version_purge`: "no process of another scanner version stores afterwards" is
     `onlyStoresOf V`; the loads concerned are those that start afterwards.
 -/
@@ -238,6 +241,47 @@ theorem C18_fresh_equal_mtime_counterexample : ¬ C18_fresh_nomod_full := by
   have := (h witnessInit hi witnessEqual hok 1 _ hr).1
   exact absurd this (by decide)
 
+/-- The full clause restricted to histories without a modification between parse and store and in
+    which every modification stamped with the current time gets a LATER timestamp than everything
+    written before — but a version may be installed with a preserved mtime (`Ev.replace`). -/
+def C18_fresh_ticks_full : Prop :=
+  ∀ s0, InitF s0 → ∀ (evs : List Ev), histNoModDuringStore s0 evs = true → histTicks evs = true →
+    ∀ (p : Nat) (r : Ret),
+    ((run s0 evs).procs p).pc = .done (some r) → r.vStart ≤ r.data ∧ r.data ≤ r.vEnd
+
+/-- third witness: the store completes (entry stamped 10), time passes, the source is replaced by a
+    file that carries mtime 3 (built before the scan, installed with its time preserved), a load
+    starts afterwards -/
+def witnessOlder : List Ev :=
+  [.spawn 0 .store 7, .step 0, .step 0, .step 0, .step 0, .step 0, .step 0, .tick, .replace 3,
+   .spawn 1 .load 7, .step 1, .step 1, .step 1, .step 1]
+
+/-- It does not hold either: "the entry is newer than the source" does not mean "the entry was made
+    from this source". -/
+theorem C18_fresh_older_mtime_counterexample : ¬ C18_fresh_ticks_full := by
+  intro h
+  have hi : InitF witnessInit :=
+    mkInit_initF 10 1 5 none none (by simp) (by decide) (by simp)
+  have hr : ((run witnessInit witnessOlder).procs 1).pc = .done (some ⟨1, 7, 2, 10, 3, 2, 2⟩) := by
+    decide
+  have := (h witnessInit hi witnessOlder (by decide) (by decide) 1 _ hr).1
+  exact absurd this (by decide)
+
+/-- `histFineClock` is `histTicks` plus "no version is installed with a preserved mtime". -/
+theorem C18_fineClock_ticks (evs : List Ev) (h : histFineClock evs = true) : histTicks evs = true := by
+  induction evs with
+  | nil => rfl
+  | cons e es ih =>
+    cases e with
+    | modify t =>
+      simp only [histFineClock, Bool.and_eq_true] at h
+      simp [histTicks, h.1, ih h.2]
+    | replace m => simp [histFineClock] at h
+    | spawn p op sv => simp only [histFineClock] at h; simp [histTicks, ih h]
+    | step p => simp only [histFineClock] at h; simp [histTicks, ih h]
+    | crash p => simp only [histFineClock] at h; simp [histTicks, ih h]
+    | tick => simp only [histFineClock] at h; simp [histTicks, ih h]
+
 /-- The main clause under the two explicit hypotheses on the history. -/
 theorem C18_fresh_partial (s0 : State) (h0 : InitF s0) (evs : List Ev)
     (hnomod : histNoModDuringStore s0 evs = true) (hclock : histFineClock evs = true)
@@ -378,6 +422,15 @@ example :
                 .step 1, .modify true, .step 1, .spawn 2 .load 7, .step 2, .step 2, .step 2, .step 2]
     histNoModDuringStore (mkInit 10 1 5 (some (1, 7, 2, 6)) none) evs = true ∧ histFineClock evs = true ∧
     ((run (mkInit 10 1 5 (some (1, 7, 2, 6)) none) evs).procs 2).pc = .done none := by decide
+
+/-- a replacement that carries an mtime NEWER than the entry is noticed: the load returns nothing -/
+example :
+    ((run (mkInit 10 1 5 (some (1, 7, 2, 8)) none)
+      [.replace 9, .spawn 1 .load 7, .step 1, .step 1, .step 1]).procs 1).pc = .done none := by decide
+
+/-- the hypotheses of `C18_fresh_ticks_full` are satisfiable with a replacement in the history -/
+example : histNoModDuringStore witnessInit witnessOlder = true ∧ histTicks witnessOlder = true ∧
+    histFineClock witnessOlder = false := by decide
 
 example : InitF (mkInit 10 1 5 (some (1, 7, 2, 6)) none) :=
   mkInit_initF 10 1 5 _ none (by intro d sv l m h; cases h; decide) (by decide)
